@@ -16,7 +16,7 @@ import os
 
 import numpy as np
 
-from .. import argguard, core
+from .. import argguard, core, mapsys
 
 CLAUSES = ["TypeOK", "C13_WellFormed", "C13_InsideBox", "C13_MembershipPredicates", "C13_SphereIsDistanceLeqR",
            "C13_CylinderIsDiscTimesSlab", "C13_EllipsoidIsNormalisedSumLeq1", "C13_SphereShellIsOuterMinusInner",
@@ -705,6 +705,8 @@ def replay(ctx, case):
     elif case["kind"] in ("hard", "soft", "softalg"):
         traces = make_traces(ctx, [case])
         validate_traces(ctx, [case], traces, name="replaytrace")
+    elif case["kind"] == "mapsys":
+        mapsys.replay(ctx, case)
     else:
         raise core.MachineryError("unknown case kind %r" % (case.get("kind"),))
 
@@ -778,3 +780,7 @@ def run(ctx):
                              cap=ctx.pick(30000, 60000), nbig=ctx.pick(2, 25), soft_rounds=ctx.pick(1, 12))
         traces = make_traces(ctx, cases)
         validate_traces(ctx, cases, traces)
+    if want("mixed"):
+        # composition (DESIGN 9.4): mask algebra as steps of mixed histories on a pool of live maps and files
+        # (IO, windowing, thresholding in between), judged by MapSysTrace.tla in scope "mask"
+        mapsys.run(ctx, "mask", ctx.pick(150, 3000))
